@@ -55,27 +55,38 @@ def envRule (env : String) (genNumLoc nAct nLocs : Nat) : Nat × Nat :=
 def feasCount (n : Nat) (mask : Nat → Bool) : Nat :=
   ((List.range n).filter (fun j => mask (j + 1))).length
 
-/-- OP only: does the generic function take the resampling branch?  The test is batch-global:
-`(action_mask[..., 1:].sum(-1) < num_starts).any()`. -/
-def opResample (n k : Nat) (masks : List (Nat → Bool)) : Bool :=
-  masks.any (fun m => Params.opsOpResampleCmp.evalNat (feasCount n m) k)
+/-! OP (`env.name == "op"`, after upstream fix d560d2a): per instance the feasible customers in ascending
+order, cycling over them when there are fewer than `k`:
+```
+feasible = td["action_mask"][..., 1:]
+order = torch.argsort((~feasible).int(), dim=-1, stable=True)      # feasible nodes first
+num_feasible = feasible.sum(-1, keepdim=True).clamp(min=1)
+pick = torch.arange(num_starts)[None] % num_feasible
+selected = rearrange(order.gather(-1, pick) + 1, "b n -> (n b)")
+```
+`n` = number of customers = mask width − 1 (the generator's `num_loc` no longer enters). -/
 
-/-- What is known about the outcome `sel` of
-`rearrange(torch.multinomial(mask[..., 1:].float(), k, replacement=True) + 1, "b n -> (n b)")`:
-`k·B` entries, entry `j·B + b` is a node `1..n` that has positive weight for instance `b`
-(`multinomial` never returns a zero-weight category).  Nothing else: draws are with replacement. -/
-def resampledOk (n k : Nat) (masks : List (Nat → Bool)) (sel : List Nat) : Bool :=
-  sel.length == k * masks.length &&
-  (List.range (k * masks.length)).all (fun r =>
-    let s := sel.getD r 0
-    let m := masks.getD (r % masks.length) (fun _ => false)
-    decide (1 ≤ s) && decide (s ≤ n) && m s)
+/-- 0-based feasible customers in ascending order -/
+def opFeas (n : Nat) (mask : Nat → Bool) : List Nat := (List.range n).filter (fun j => mask (j + 1))
+/-- 0-based infeasible customers in ascending order -/
+def opInfeas (n : Nat) (mask : Nat → Bool) : List Nat := (List.range n).filter (fun j => !mask (j + 1))
+/-- stable `argsort` of the 0/1 key `~feasible` (`Params.opsOpArgsortStable` is regenerated from the
+source; without `stable=True` the order among equal keys is unspecified — modelled as "nothing known") -/
+def opOrder (n : Nat) (mask : Nat → Bool) : List Nat :=
+  if Params.opsOpArgsortStable then opFeas n mask ++ opInfeas n mask else []
 
-/-- Outcome relation of `select_start_nodes(td, env, k)` for `env.name = "op"` on a batch whose reset
-masks are `masks` (`n` customers, `genNumLoc = env.generator.num_loc`). -/
-def opStartsOk (n genNumLoc k : Nat) (masks : List (Nat → Bool)) (sel : List Nat) : Bool :=
-  if opResample n k masks then resampledOk n k masks sel
-  else sel == startsOf masks.length k 1 genNumLoc
+/-- forced start of copy `j` of an instance with reset mask `mask`
+(`Params.opsOpClampMin` is the regenerated constant of `.clamp(min=1)`) -/
+def opPick (n : Nat) (mask : Nat → Bool) (j : Nat) : Nat :=
+  (opOrder n mask).getD (j % max Params.opsOpClampMin (feasCount n mask)) 0 + 1
+
+/-- the `k` forced starts of one instance -/
+def opInstStarts (n k : Nat) (mask : Nat → Bool) : List Nat := (List.range k).map (opPick n mask)
+
+/-- `select_start_nodes(td, env, k)` for OP on a batch with reset masks `masks` (`k`-major rows) -/
+def opStarts (n k : Nat) (masks : List (Nat → Bool)) : List Nat :=
+  (List.range (k * masks.length)).map (fun r =>
+    opPick n (masks.getD (r % masks.length) (fun _ => false)) (r / masks.length))
 
 /-- starts of instance `b` in a `k`-major list of `k·B` starts -/
 def instStarts (B k b : Nat) (sel : List Nat) : List Nat :=
